@@ -377,6 +377,20 @@ pub fn relations(out: &mut Vec<Rel>, tier: Tier) {
     ext::<ark_bw6_761::Fq6>(out, "bw6_761.Fq6", q(200));
     ext::<ark_test_curves::bls12_381::Fq2>(out, "test.bls12_381.Fq2", q(800));
     ext::<ark_test_curves::mnt6_753::Fq3>(out, "test.mnt6_753.Fq3", q(300));
+    // towers over zoo prime fields with unusual modulus shapes (no spare bit, top limb 2^63, full width) and
+    // hand-written configurations
+    macro_rules! z2 {
+        ($cfg:ty, $name:expr) => {
+            ext::<ark_ff::Fp2<$cfg>>(out, $name, q(500));
+        };
+    }
+    crate::for_each_zoo_fp2!(z2);
+    macro_rules! z3 {
+        ($cfg:ty, $name:expr) => {
+            ext::<ark_ff::Fp3<$cfg>>(out, $name, q(400));
+        };
+    }
+    crate::for_each_zoo_fp3!(z3);
     // BigInt<N>
     macro_rules! bi {
         ($($n:expr),*) => {$(
